@@ -131,4 +131,24 @@ def groupOKb (dag : Dag) (root : Nat) (G : List Nat) : Bool :=
 def planOKb (dag : Dag) (root : Nat) : Bool :=
   (getNode dag root).isSome && dag.all (fun nd => nd.deps.all (fun d => decide (d < nd.name)))
 
+/-! ### hypotheses of `C14_substitute` (Lemmas/FusionSubst.lean), decidable on a concrete plan -/
+
+def headLt (nd : Node) : Bool :=
+  match nd.members with
+  | [] => true
+  | r :: _ => decide (r < nd.name)
+
+def nameRankedB (dag : Dag) : Bool :=
+  dag.all (fun nd => nd.deps.all (fun d => decide (d < nd.name)) && headLt nd)
+
+/-- the first member of every `Fused` node is a node of the plan -/
+def membersKnownB (dag : Dag) : Bool :=
+  dag.all (fun nd => match nd.members with
+    | [] => true
+    | r :: _ => (getNode dag r).isSome)
+
+/-- the hypotheses of `C14_substitute` on a concrete plan -/
+def substOKb (dag : Dag) (root : Nat) : Bool :=
+  nameRankedB dag && membersKnownB dag && (getNode dag root).isSome
+
 end Dx.Fusion
